@@ -1283,6 +1283,9 @@ func (g *gen) genesis() string {
 func genTx(r *hlib.Rng, nops int, res *hlib.Result) []string {
 	g := &gen{r: r, res: res, nodes: map[int]nodeSpec{}, ents: map[int]bool{}, rts: map[int]bool{}, max: uint64(2 + r.Intn(4))}
 	debond := uint64(r.Intn(3))
+	if r.Chance(1, 3) { // long retention: expired nodes stay registered for a while
+		debond = 3 + uint64(r.Intn(5))
+	}
 	// stake thresholds: all zero (stake never matters) or small values with balances around their sums
 	thr := make([]int, 7)
 	staked := r.Chance(2, 3)
@@ -1338,6 +1341,61 @@ func genTx(r *hlib.Rng, nops int, res *hlib.Result) []string {
 	for i := 0; i < nops; i++ {
 		var op string
 		k := r.Intn(100)
+		if len(g.nodes) > 0 && r.Chance(1, 12) {
+			// A registered node -- preferably one that has expired but is still kept for the debonding
+			// period -- re-registers naming a different entity, which first puts it on its node list.
+			var ids, expired []int
+			for id, n := range g.nodes {
+				ids = append(ids, id)
+				if n.exp < g.epoch {
+					expired = append(expired, id)
+				}
+			}
+			sort.Ints(ids)
+			sort.Ints(expired)
+			id := ids[r.Intn(len(ids))]
+			if len(expired) > 0 && r.Chance(4, 5) {
+				id = expired[r.Intn(len(expired))]
+			} else if g.nodes[id].exp >= g.epoch && r.Chance(2, 3) {
+				// let it expire first: one epoch past its expiration (kept if the debonding interval allows)
+				g.epoch = g.nodes[id].exp + 1
+				ep := fmt.Sprintf("epoch %d", g.epoch)
+				ops = append(ops, ep)
+				g.apply(ep)
+				res.Count("op:epoch")
+			}
+			n, still := g.nodes[id]
+			if !still { // removed by the epoch transition
+				continue
+			}
+			if n.exp < g.epoch {
+				res.Count("switch-entity:expired-node")
+			} else {
+				res.Count("switch-entity:active-node")
+			}
+			b := g.pick(entKeys)
+			for b == n.ent {
+				b = g.pick(entKeys)
+			}
+			var list []int
+			for _, x := range nodeKeys {
+				if g.homeEntity(x) == b || x == id {
+					list = append(list, x)
+				}
+			}
+			pre := fmt.Sprintf("regentity %d %d %s %d 1", b, b, showNums(list), b)
+			ops = append(ops, pre)
+			g.apply(pre)
+			n.ent = b
+			n.exp = g.epoch + 1 + uint64(r.Intn(int(g.max)))
+			if r.Chance(1, 3) { // together with a key rotation
+				n.p2p = g.freshKey()
+			}
+			op = fmt.Sprintf("regnode %d %s %s 1", n.id, n, showNums([]int{n.id, n.p2p, n.cons, n.tls, n.vrf}))
+			ops = append(ops, op)
+			g.apply(op)
+			continue
+		}
 		switch {
 		case k < 8 || (k < 30 && len(g.ents) < len(entKeys) && r.Bool()):
 			op = g.regEntity()
